@@ -4,7 +4,7 @@ import common as C
 import statelib
 from framework import Unit
 
-PROPS_FILES = ['C02', 'C02ext', 'C02dual', 'C02excl']
+PROPS_FILES = ['C02', 'C02ext', 'C02dual', 'C02excl', 'C02step']
 IMPORTS = 'From Gen Require Import enums core exec.'
 SPEC_IMPORTS = ('From ArmV Require Import Spec.Pseudocode Spec.Arch Spec.MachineView Spec.DPSem Spec.LoadStore Spec.Hub Spec.Memory.')
 SR = {'LSL': 1, 'LSR': 2, 'ASR': 3, 'ROR': 4, 'RRX': 5}
@@ -340,6 +340,10 @@ def units():
                  ['Proofs/LSProofs2.v', 'Proofs/LSProofs3.v', 'Proofs/LSProofs4.v'],
                  ['opcodes.abstract_opcodes.%s.%s.execute' % (snake(cls), cls) for cls in [c for (c, _, _, _) in EXTRA] + [c for c, _ in LITERALS]],
                  extra_and_literal_cases, IMPORTS, SPEC_IMPORTS + '\nFrom ArmV Require Import Spec.LoadStoreUnpriv.'),
+            Unit('whole_step', ['C02_step_raises', 'C02_str_imm_a1_step', 'C02_str_imm_a1_step_flat', 'C02_ldr_imm_a1_step', 'C02_str_imm_a1_step_example', 'C02_str_imm_a1_closed'],
+                 ['Proofs/StepProofs.v', 'Proofs/StepInstancesStore.v', 'Proofs/StepInstancesLoad.v', 'Proofs/StepInstancesStoreExample.v', 'Proofs/StepFetch.v', 'Proofs/StepClosed.v'],
+                 ['arm_v6.ArmV6.emulate_cycle', 'arm_v6.ArmV6.execute_instruction', 'arm_v6.ArmV6.increment_pc_if_needed'], None,
+                 IMPORTS, SPEC_IMPORTS),
             Unit('exclusive', ['C02_' + c for c in EXCLUSIVES], ['Proofs/ExclProofs.v'],
                  ['opcodes.abstract_opcodes.%s.%s.execute' % (snake(c), c) for c in EXCLUSIVES], excl_cases, IMPORTS, SPEC_IMPORTS + '\nFrom ArmV Require Import Spec.LoadStoreUnpriv.'),
             Unit('dual', ['C02_' + c for c in DUALS], ['Proofs/LSProofs5.v'],
